@@ -123,6 +123,18 @@ func ensureSteady(class int) {
 	}
 }
 
+// capMalloc: an allocator that refuses an absurd length with a panic (which the callers of the loader recover and report)
+// instead of asking the runtime for it: a loader that is out of step with the file takes garbage for a record length, and
+// `fatal error: out of memory` would end the run together with every failure already recorded
+func capMalloc(f func(int) *[]byte) func(int) *[]byte {
+	return func(le int) *[]byte {
+		if le < 0 || le > 1<<31 {
+			panic(fmt.Sprintf("Memory_Malloc(%d): absurd record length", le))
+		}
+		return f(le)
+	}
+}
+
 func setAlloc(kind string) {
 	switch kind {
 	case "client":
@@ -130,10 +142,10 @@ func setAlloc(kind string) {
 			clientMem = memory.NewAllocator()
 			_, _, _, _, _, memSlots = memory.VerifConsts()
 		}
-		utxo.Memory_Malloc = clientMem.Malloc
+		utxo.Memory_Malloc = capMalloc(clientMem.Malloc)
 		utxo.Memory_Free = clientMem.Free
 	case "poison":
-		utxo.Memory_Malloc = defaultMalloc
+		utxo.Memory_Malloc = capMalloc(defaultMalloc)
 		utxo.Memory_Free = func(p *[]byte) {
 			if p != nil {
 				b := *p
@@ -143,7 +155,7 @@ func setAlloc(kind string) {
 			}
 		}
 	default:
-		utxo.Memory_Malloc = defaultMalloc
+		utxo.Memory_Malloc = capMalloc(defaultMalloc)
 		utxo.Memory_Free = defaultFree
 	}
 }
